@@ -33,6 +33,9 @@ structure Mon where
   pausedUp : List Nat := []              -- blobs with an upload parked before Manager.Add
   pausedFc : Option Nat := none          -- blob whose forced cleanup is parked after Manager.Find
   tainted : List Nat := []               -- blobs for which a forced cleanup overlapped a write-back call
+  lost : List (Nat × String) := []       -- acknowledged keys seen unprotected, with the class decided then
+  pausedKeys : List Nat := []            -- keys whose upload is parked before Manager.Add (flag already set)
+  flagLost : List Nat := []              -- parked keys whose blob's flag was cleared by another namespace's task meanwhile
 
 structure St where
   m : State := {}
@@ -114,30 +117,56 @@ def doneToks (del : List Nat) (err : Nat) : List String :=
   ["done", "deleted=" ++ listTok (ssort (del.map fun d => s!"b{d}")), s!"errors={err}"]
 
 /-- the property on the implementation's dump: every acknowledged upload is in its backend, or its
-file is cached with the persist flag and its task is stored -/
-def violations (mon : Mon) (impl : List String) (final : Bool) : List String :=
+file is cached with the persist flag and its task is stored.  A violation is classified once, at the
+op where the protection was lost (or was never there):
+  * lost by a forced-cleanup step that overlapped a write-back call of the blob, or missing at the
+    acknowledgement after such an overlap                  → forced-cleanup-during-commit (known)
+  * lost when another namespace's task of the same blob finished (executor run or the SyncExec of a
+    forced cleanup) and cleared the shared flag           → persist-flag-shared-across-namespaces (known)
+  * anything else                                          → acked-blob-unprotected -/
+def violations (mon : Mon) (args impl : List String) (final : Bool) : List String × Mon :=
   let files := list? ((kv? impl "c").getD "-")
   let inb := list? ((kv? impl "b").getD "-")
   let tbl := (list? ((kv? impl "t").getD "-")).map fun r => (r.splitOn ":").headD ""
-  mon.acked.filterMap fun k =>
+  let res := impl.headD ""
+  let shared (b : Nat) : Bool := (mon.nsSeen.filter (·.1 = b)).length > 1
+  let classify (k : Nat) : String :=
+    let b := dig k
+    let ackedNow : Bool := match args with
+      | [op, kt] => (op == "upload" || op == "uploade") && kt == s!"k{k}"
+      | _ => false
+    if ackedNow then
+      (if b ∈ mon.tainted then "forced-cleanup-during-commit"
+       else if k ∈ mon.flagLost then "persist-flag-shared-across-namespaces" else "acked-blob-unprotected")
+    else match args with
+      | ["exec", kt] =>
+        (match key? kt with
+         | some k' => if k' ≠ k ∧ dig k' = b ∧ res = "ok" then "persist-flag-shared-across-namespaces" else "acked-blob-unprotected"
+         | none => "acked-blob-unprotected")
+      | "fc" :: _ | "fcf" :: _ | "fcb" :: _ =>
+        if b ∈ mon.tainted then "forced-cleanup-during-commit"
+        else if shared b then "persist-flag-shared-across-namespaces" else "acked-blob-unprotected"
+      | _ => "acked-blob-unprotected"
+  mon.acked.foldl (fun (acc : List String × Mon) k =>
+    let (pfs, mon) := acc
     let kt := s!"k{k}"
     let b := dig k
     let ok := kt ∈ inb ∨ (!final ∧ s!"b{b}:1" ∈ files ∧ kt ∈ tbl)
-    if ok then none else
-      let key :=
-        if b ∈ mon.tainted then "forced-cleanup-during-commit"
-        else if (mon.nsSeen.filter (·.1 = b)).length > 1 then "persist-flag-shared-across-namespaces"
-        else "acked-blob-unprotected"
-      some (s!"side=impl key={key} upload {kt} was acknowledged and is " ++
+    if ok then (pfs, mon) else
+      let (key, mon) := match mon.lost.find? (·.1 = k) with
+        | some (_, key) => (key, mon)
+        | none => let key := classify k; (key, { mon with lost := (k, key) :: mon.lost })
+      (pfs ++ [s!"side=impl key={key} upload {kt} was acknowledged and is " ++
         (if final then "not in its backend after all write-back tasks ran"
          else "neither in its backend nor protected (file, persist flag and task)") ++
-        s!": files {files} backend {inb} tasks {tbl}")
+        s!": files {files} backend {inb} tasks {tbl}"], mon)) ([], mon)
 
 def step (s : St) (kind : String) (args impl : List String) : Option (St × StepOut) :=
   if kind ≠ "op" then none else
   let res := impl.headD ""
   let fin (s' : St) (mon : Mon) (obs : List String) (br : String) (final := false) : Option (St × StepOut) :=
-    some ({ s' with mon }, { obs := obs ++ dumpToks s'.m, branch := br, propfails := violations mon impl final })
+    let (pfs, mon) := violations mon args impl final
+    some ({ s' with mon }, { obs := obs ++ dumpToks s'.m, branch := br, propfails := pfs })
   let taintIf (mon : Mon) (b : Nat) (c : Bool) : Mon := if c then { mon with tainted := b :: mon.tainted } else mon
   match args with
   | [op, kt] =>
@@ -152,7 +181,7 @@ def step (s : St) (kind : String) (args impl : List String) : Option (St × Step
       if op = "uploadb" then
         let m2 := OriginWB.step dig m1 (.wbStep k)
         if hasThread m2 k then
-          fin { s with m := m2 } { mon with pausedUp := b :: mon.pausedUp } ["paused"] "uploadb.paused"
+          fin { s with m := m2 } { mon with pausedUp := b :: mon.pausedUp, pausedKeys := k :: mon.pausedKeys } ["paused"] "uploadb.paused"
         else fin { s with m := m2 } mon ["err"] "uploadb.err"
       else
         let (m2, ack) := runThread 8 m1 k
@@ -164,7 +193,7 @@ def step (s : St) (kind : String) (args impl : List String) : Option (St × Step
       let b := dig k
       if !hasThread s.m k then fin s s.mon ["none"] "uploade.none" else
       let (m2, ack) := runThread 8 s.m k
-      let mon := { s.mon with pausedUp := s.mon.pausedUp.erase b }
+      let mon := { s.mon with pausedUp := s.mon.pausedUp.erase b, pausedKeys := s.mon.pausedKeys.erase k }
       let mon := taintIf mon b (s.mon.pausedFc == some b)
       let mon := if res = "ack" then { mon with acked := if k ∈ mon.acked then mon.acked else k :: mon.acked } else mon
       fin { s with m := settle m2 } mon [if ack then "ack" else "err"] (if ack then "uploade.ack" else "uploade.err")
@@ -185,6 +214,9 @@ def step (s : St) (kind : String) (args impl : List String) : Option (St × Step
         let (m2, del, err) := fcMany (downKeys s) (listed.dropWhile (· ≠ b)) m1 del err
         let mon := s.mon.pausedUp.foldl (fun mon pb => taintIf mon pb true) mon
         fin { s with m := m2 } mon (doneToks del err) "fcb.done"
+    else if op = "fetch" then do
+      let b ← blob? kt
+      fin { s with m := OriginWB.step dig s.m (.fetch b) } s.mon ["ok"] (if b ∈ s.m.cache then "fetch.present" else "fetch.new")
     else if op = "del" then do
       let b ← blob? kt
       let ok := b ∈ s.m.cache ∧ b ∉ s.m.persist
@@ -198,7 +230,10 @@ def step (s : St) (kind : String) (args impl : List String) : Option (St × Step
         let ok := (runExecutor dig s.m.cache s.m.persist s.m.backend k up).1
         let br := if up ∧ k ∈ s.m.backend then "exec.present" else if dig k ∉ s.m.cache then "exec.dropped"
           else if up then "exec.uploaded" else "exec.failed"
-        fin { s with m := settle (OriginWB.step dig s.m (.exec k up)) } s.mon [if ok then "ok" else "err"] br
+        let mon := if res = "ok" then
+            { s.mon with flagLost := s.mon.flagLost ++ s.mon.pausedKeys.filter fun pk => pk ≠ k ∧ dig pk = dig k }
+          else s.mon
+        fin { s with m := settle (OriginWB.step dig s.m (.exec k up)) } mon [if ok then "ok" else "err"] br
       | _ => fin s s.mon ["none"] "exec.none"
     else if op = "down" ∨ op = "upb" then do
       let n ← ns? kt
@@ -227,7 +262,7 @@ def step (s : St) (kind : String) (args impl : List String) : Option (St × Step
   | ["restart"] =>
     if s.m.fc ≠ [] then fin s s.mon ["busy"] "restart.busy" else
     fin { s with m := OriginWB.step dig s.m .restart, fcRest := [], fcDel := [], fcErr := 0 }
-      { s.mon with pausedUp := [], pausedFc := none } ["ok"] "restart"
+      { s.mon with pausedUp := [], pausedFc := none, pausedKeys := [] } ["ok"] "restart"
   | ["final"] => fin s s.mon [] "final" (final := true)
   | _ => none
 
